@@ -8,7 +8,7 @@ from ..astutil import calls_in, norm_stmt, path_of, unparse, walk_scope, walk_st
 from ..cfg import own_exprs
 from ..facts import Fact, atoms, enumerate_paths
 from ..report import Ctx
-from .common import always_before, guard, increment_of, need, node_of, stmts_matching
+from .common import always_before, expand, guard, increment_of, need, node_of, single_defs, stmts_matching
 
 EV = "happysimulator/core/event.py"
 NODE = "happysimulator/faults/node_faults.py"
@@ -191,6 +191,56 @@ def rule_closure_composability(ctx: Ctx) -> None:
     ctx.floor("C06-3", 8)
 
 
+def partition_handle_rules(ctx: Ctx, rule: str) -> None:
+    """Partition handles: created owning every pair they block, registered, healed selectively (shared with C11: Raft's liveness clause on
+    a healed network relies on a healed pair really being unblocked)."""
+    prog = ctx.prog
+    # ---- partitions
+    heal = prog.func(NET, "Partition.heal")
+    subs = [s for s in walk_stmts(heal.node.body) if isinstance(s, ast.AugAssign) and isinstance(s.op, ast.Sub)]
+    okp = len(subs) == 2
+    for s in subs:
+        v = s.value
+        okp = okp and isinstance(v, ast.BinOp) and isinstance(v.op, ast.Sub) and (path_of(v.left) or "").startswith("self.") and path_of(v.right) in ("kept_pairs", "kept_directed")
+    others = stmts_matching(heal, "others = [p for p in self._network._active_partitions if p is not self]")
+    kept = [s for s in walk_stmts(heal.node.body) if isinstance(s, ast.Assign) and path_of(s.targets[0]) in ("kept_pairs", "kept_directed") and "others" in unparse(s.value)]
+    okp = okp and len(others) == 1 and len(kept) == 2
+    ctx.ob(rule, "G6", heal, None, okp, "healing removes only the pairs that no other still-active partition blocks, and retires this handle from the active list")
+    pt = prog.func(NET, "Network.partition")
+    app = [c for c in calls_in(pt.node) if path_of(c.func) == "self._active_partitions.append"]
+    rets = [s for s in walk_stmts(pt.node.body) if isinstance(s, ast.Return) and s.value is not None]
+    ok = len(app) == 1 and rets and path_of(rets[-1].value) == path_of(app[0].args[0])
+    ctx.ob(rule, "G2", pt, app[0] if app else None, bool(ok), "every partition handle handed out is registered as active")
+    # the handle owns every pair its call blocks, whatever other partitions block already: per iteration of the pair loop exactly one pair is
+    # added to a local set *and* to the matching network set, and nothing but the `asymmetric` flag decides which (a pair skipped because
+    # an earlier partition already blocks it would be unblocked when that earlier partition heals)
+    pff = ctx.flow(pt)
+    inner = [s_ for s_ in walk_stmts(pt.node.body) if isinstance(s_, ast.For) and not any(isinstance(x, ast.For) for x in walk_stmts(s_.body))
+             and any(path_of(k.func) in ("self._partitioned_pairs.add", "self._directed_partitions.add") for k in calls_in(s_))]
+    okl, whyl = len(inner) == 1, "pair loop not found"
+    if okl:
+        hn = node_of(pff.cfg, inner[0])
+        first = [n_ for n_ in pff.cfg.nodes if n_.kind == "stmt" and n_.ast is inner[0].body[0]]
+        paths = enumerate_paths(pff, first[0], stop=lambda x: x is hn) if first else []
+        okl, whyl = bool(paths), "no path through the pair loop"
+        for p_ in paths:
+            adds = [(path_of(k.func), unparse(k.args[0]).replace(" ", "")) for n_ in p_.nodes if n_.kind == "stmt" for k in calls_in(n_.ast) if (path_of(k.func) or "").endswith(".add")]
+            glob = [a_ for a_ in adds if a_[0] in ("self._partitioned_pairs.add", "self._directed_partitions.add")]
+            loc = [a_ for a_ in adds if a_[0] not in ("self._partitioned_pairs.add", "self._directed_partitions.add")]
+            sd_p = single_defs(pt)
+            canon = lambda t_: unparse(expand(ast.parse(t_, mode="eval").body, sd_p)).replace(" ", "")
+            tests = [unparse(n_.ast) for n_, l_ in zip(p_.nodes, p_.labels) if n_.kind == "test" and l_ is not None]
+            if p_.end != "stop" or len(glob) != 1 or len(loc) != 1 or canon(glob[0][1]) != canon(loc[0][1]) or any(t_ != "asymmetric" for t_ in tests):
+                okl, whyl = False, f"iteration [{p_.describe()[:80]}] adds {adds}"
+                break
+    ctx.ob(rule, "G2", pt, inner[0] if inner else None, okl, "every pair of the cross product is recorded both in the handle and in the network, unconditionally (only `asymmetric` selects the kind)"
+           + ("" if okl else " — " + whyl))
+    hp = prog.func(NET, "Network.heal_partition")
+    clears = sorted(path_of(c.func) for c in calls_in(hp.node) if (path_of(c.func) or "").endswith(".clear"))
+    ctx.ob(rule, "G2", hp, None, clears == ["self._active_partitions.clear", "self._directed_partitions.clear", "self._partitioned_pairs.clear"],
+           f"heal_partition() resets pairs, directed pairs and the active-handle list together (clears: {clears})")
+
+
 def rule_helpers(ctx: Ctx) -> None:
     prog = ctx.prog
     # ---- packet loss: recomputed from the configured rate and the list of active extras
@@ -258,26 +308,7 @@ def rule_helpers(ctx: Ctx) -> None:
     ok = len(lay) == 1 and path_of(lay[0].value.args[0]) == "link.latency"
     ctx.ob("C06-3", "G6", act[0], lay[0] if lay else None, ok, "a latency window layers on top of whatever is installed at activation time (not on a value captured when the schedule was built)")
 
-    # ---- partitions
-    heal = prog.func(NET, "Partition.heal")
-    subs = [s for s in walk_stmts(heal.node.body) if isinstance(s, ast.AugAssign) and isinstance(s.op, ast.Sub)]
-    okp = len(subs) == 2
-    for s in subs:
-        v = s.value
-        okp = okp and isinstance(v, ast.BinOp) and isinstance(v.op, ast.Sub) and (path_of(v.left) or "").startswith("self.") and path_of(v.right) in ("kept_pairs", "kept_directed")
-    others = stmts_matching(heal, "others = [p for p in self._network._active_partitions if p is not self]")
-    kept = [s for s in walk_stmts(heal.node.body) if isinstance(s, ast.Assign) and path_of(s.targets[0]) in ("kept_pairs", "kept_directed") and "others" in unparse(s.value)]
-    okp = okp and len(others) == 1 and len(kept) == 2
-    ctx.ob("C06-3", "G6", heal, None, okp, "healing removes only the pairs that no other still-active partition blocks, and retires this handle from the active list")
-    pt = prog.func(NET, "Network.partition")
-    app = [c for c in calls_in(pt.node) if path_of(c.func) == "self._active_partitions.append"]
-    rets = [s for s in walk_stmts(pt.node.body) if isinstance(s, ast.Return) and s.value is not None]
-    ok = len(app) == 1 and rets and path_of(rets[-1].value) == path_of(app[0].args[0])
-    ctx.ob("C06-3", "G2", pt, app[0] if app else None, bool(ok), "every partition handle handed out is registered as active")
-    hp = prog.func(NET, "Network.heal_partition")
-    clears = sorted(path_of(c.func) for c in calls_in(hp.node) if (path_of(c.func) or "").endswith(".clear"))
-    ctx.ob("C06-3", "G2", hp, None, clears == ["self._active_partitions.clear", "self._directed_partitions.clear", "self._partitioned_pairs.clear"],
-           f"heal_partition() resets pairs, directed pairs and the active-handle list together (clears: {clears})")
+    partition_handle_rules(ctx, "C06-3")
     ctx.floor("C06-4", 2)
 
 
@@ -444,6 +475,7 @@ def run(ctx: Ctx) -> None:
 
 
 MUTANTS = [
+    ("partition-skips-already-blocked-pairs", NET, "                self._known_entities[entity_b.name] = entity_b\n                if asymmetric:", "                self._known_entities[entity_b.name] = entity_b\n                if self.is_partitioned(entity_a.name, entity_b.name):\n                    continue\n                if asymmetric:", "C06-3"),
     ("layer-walk-starts-below-head", NETF, "    outer = link.latency\n    while isinstance(outer, _CompoundLatency):", "    outer = link.latency._base\n    while isinstance(outer, _CompoundLatency):", "C06-4"),
     ("continuation-ignores-crash", EV, "        if getattr(self.target, \"_crashed\", False):\n            return []\n\n        tracing_on = _event_tracing_enabled", "        tracing_on = _event_tracing_enabled", "C06-1"),
     ("event-ignores-crash", EV, "        if getattr(self.target, \"_crashed\", False):\n            return []\n\n        if _event_tracing_enabled:", "        if _event_tracing_enabled:", "C06-1"),
